@@ -74,7 +74,7 @@ class ClosureV:
 
 class OuterSink:
     """the `&mut dyn AmlSink` parameter of the function under analysis: records the trace"""
-    def __init__(self): self.segs = []; self.calls = []
+    def __init__(self, byte_only=False): self.segs = []; self.calls = []; self.byte_only = byte_only
     def __repr__(self): return 'Sink' + show_segs(self.segs)
 
 class IterV:
@@ -151,35 +151,45 @@ def _mentions(t, var):
         if u[0] == 'a' and isinstance(u[1], str) and var in u[1]: return True
     return False
 
-def _byte_of(t):
-    """t == byte j of x  ->  (x, j)"""
-    if t[0] == 'and' and t[2] == C(255):
+def _slice_of(t, width):
+    """t == bits [8*j, 8*j + 8*width) of x  ->  (x, j)   (j in bytes)"""
+    bits = 8 * width
+    if t[0] == 'and' and t[2] == C((1 << bits) - 1):
+        u = t[1]
+        if u[0] == 'shr' and u[2][0] == 'c' and u[2][1] % 8 == 0: return u[1], u[2][1] // 8
+        return u, 0
+    if t[0] == 'trunc' and t[2] == bits:
         u = t[1]
         if u[0] == 'shr' and u[2][0] == 'c' and u[2][1] % 8 == 0: return u[1], u[2][1] // 8
         return u, 0
     if t[0] == 'shr' and t[2][0] == 'c' and t[2][1] % 8 == 0:
+        u = t[1]; sh = t[2][1]
+        if u[0] == 'trunc' and u[2] == sh + bits: return u[1], sh // 8      # (trunc_{sh+bits}(x)) >> sh
         lo, hi = rng(t)
-        if lo >= 0 and hi <= 255: return t[1], t[2][1] // 8
+        if lo >= 0 and hi < (1 << bits): return u, sh // 8                  # the top slice of x
     return None
 
 def merge_bytes(segs):
-    """consecutive single-byte segments that are bytes 0..k-1 of one term x < 2^(8k) form the k-byte integer x"""
+    """consecutive integer segments that are the slices [0,w1), [w1,w1+w2), ... of one term x < 2^(8*total)
+    form the single little-endian integer x (byte-wise / half-wise pushes of one value)"""
     out = []; i = 0
     while i < len(segs):
         s = segs[i]
-        b = _byte_of(s[1]) if s[0] == 'int' and s[2] == 1 else None
+        b = _slice_of(s[1], s[2]) if s[0] == 'int' and s[1][0] != 'c' else None
         if b and b[1] == 0:
-            x = b[0]; k = 1
-            while i + k < len(segs) and segs[i + k][0] == 'int' and segs[i + k][2] == 1 and _byte_of(segs[i + k][1]) == (x, k): k += 1
+            x = b[0]; k = 1; total = s[2]
+            while i + k < len(segs) and segs[i + k][0] == 'int' and _slice_of(segs[i + k][1], segs[i + k][2]) == (x, total):
+                total += segs[i + k][2]; k += 1
             lo, hi = rng(x)
-            if k > 1 and lo >= 0 and hi < (1 << (8 * k)):
-                out.append(('int', x, k)); i += k; continue
+            if k > 1 and lo >= 0 and hi < (1 << (8 * total)):
+                out.append(('int', x, total)); i += k; continue
         out.append(s); i += 1
     return out
 
 def norm_segs(segs):
     """canonical form: empty segments dropped, constant conditions resolved, byte-wise pushes of one integer merged"""
     segs = merge_bytes(list(segs))
+    segs = merge_bytes(segs)      # slices of slices (bytes -> words -> dwords)
     out = []
     for s in segs:
         if s[0] == 'cond':
@@ -375,6 +385,8 @@ class Interp:
         else:
             adt = self.f.adt(ev.path)
             fty = None
+            if adt is None:
+                v = self.top('payload of foreign enum ' + ev.path); ev.payload_cache[k] = v; return v
             for var in adt['variants']:
                 if var['name'] == variant:
                     for fd in var['fields']:
@@ -741,6 +753,11 @@ class Interp:
         k = e['k']
         m = getattr(self, 'e_' + k, None)
         if m is None: return self.top('expression kind ' + k, e)
+        if k in ('Binary', 'Unary', 'Cast', 'AssignOp', 'Index'):
+            try:
+                return m(e)
+            except (TypeError, AttributeError, IndexError) as ex:
+                return self.top('operands outside the model of %s (%s)' % (k, type(ex).__name__), e)
         return m(e)
 
     def place(self, e):
@@ -1309,7 +1326,10 @@ class Interp:
             if r is not None: return r
         if name in self.f.bodies and self.f.bodies[name].get('body') is not None:
             return self.call_local(name, args, e)
-        r = builtins_model.call(self, name, args, e)
+        try:
+            r = builtins_model.call(self, name, args, e)
+        except (TypeError, AttributeError, KeyError, IndexError, ValueError) as ex:
+            return self.top('operands outside the model of %s (%s)' % (name, type(ex).__name__), e)
         if r is NotImplemented:
             return self.top('no model for ' + name, e)
         return r
@@ -1376,6 +1396,12 @@ class Interp:
     def sink_call(self, meth, args, e):
         tgt = self.sink_target(args[0])
         if isinstance(tgt, Top): return tgt
+        if isinstance(tgt, OuterSink) and tgt.byte_only and meth != 'byte':
+            # a sink that implements only the mandatory method: everything else is the trait's default body
+            tgt.calls.append(meth)
+            d = self.f.trait_defaults.get('AmlSink', {}).get(meth)
+            if d is None: return self.top('no default AmlSink::%s' % meth, e)
+            return self.call_local(d, [args[0], args[1]], e)
         if isinstance(tgt, OuterSink):
             tgt.calls.append(meth)
             v = args[1]
@@ -1406,8 +1432,9 @@ class Interp:
     def slice_segs(self, sv):
         """segments of seq[lo..hi] when resolvable"""
         seq = sv.seq
-        if seq.stores: return None
+        if not isinstance(seq, SeqV) or seq.stores: return None
         lo, hi = sv.lo, sv.hi
+        if not is_term(lo) or (hi is not None and not is_term(hi)): return None
         total = seqlen(seq.segs)
         if hi is None: hi = total
         if lo == ZERO and hi == total: return list(seq.segs)
@@ -1500,6 +1527,58 @@ def S_of(segs):
     return r
 
 
+_ST_INTERN = {}
+def st_key(base, hist):
+    """compact name of 'the sequence `base` after the stores `hist`' (interned, so terms stay small)"""
+    k = (tuple(base), tuple(hist))
+    n = _ST_INTERN.get(k)
+    if n is None:
+        n = len(_ST_INTERN); _ST_INTERN[k] = n
+    return ('st', n)
+
+def canon_bytes(t):
+    """canonical byte-sum form: S[le_w(x)] and byte-valued slices of x become sums of B(x, k) atoms, so that the same
+    bytes summed as one integer, as two halves or one by one are the same term"""
+    def f(x):
+        if x[0] == 'S' and isinstance(x[1], tuple) and x[1] and x[1][0] == 'LE':
+            src, w = x[1][1], x[1][2]
+            base = _slice_of(src, w) if src[0] in ('trunc', 'shr', 'and') else None
+            root, j = base if base else (src, 0)
+            root = canon_bytes(root)
+            r = ZERO
+            for k in range(w): r = add(r, ('byte', root, j + k))
+            return r
+        if x[0] in ('trunc', 'shr', 'and'):
+            b = _slice_of(x, 1)
+            if b is not None and rng(x)[1] <= 255: return ('byte', canon_bytes(b[0]), b[1])
+        if x[0] == 'wrap' and x[2] == 256:
+            # modulo 256 only the low byte of every summand counts
+            d, c = to_lin(x[1])
+            r = C(c)
+            for leaf, k in d.items():
+                r = add(r, scale(_low_byte(leaf), k))
+            return wrap(r, 256)
+        return None
+    return rebuild(t, f)
+
+def _low_byte(t):
+    """canonical form of (t mod 256)"""
+    if t[0] == 'byte' or t[0] == 'S' or t[0] == 'Ssum': return canon_bytes(t) if t[0] != 'byte' else t
+    if t[0] == 'trunc' and t[2] >= 8: return _low_byte(t[1])
+    if t[0] == 'shr' and t[2][0] == 'c' and t[2][1] % 8 == 0:
+        y = t[1]; off = t[2][1]
+        while True:
+            if y[0] == 'trunc' and y[2] >= off + 8: y = y[1]
+            elif y[0] == 'shr' and y[2][0] == 'c' and y[2][1] % 8 == 0:
+                # (z >> s2) truncated is still bits of z, as long as no truncation below cut them (checked above)
+                off2 = y[2][1]; y = y[1]; off += off2
+            else: break
+        if y[0] in ('a',): return ('byte', y, off // 8)
+        return ('byte', canon_bytes(y), off // 8)
+    if t[0] == 'a':
+        return t if rng(t)[1] <= 255 else ('byte', t, 0)
+    return canon_bytes(t)
+
 def stored_sum(s):
     """byte-sum of a 'stored' segment: S(base) + sum over the stores of (new - old-at-that-time)"""
     _, base, stores, w, elem = s
@@ -1509,9 +1588,10 @@ def stored_sum(s):
     for (i, v) in stores:
         if isinstance(i, tuple) and i and i[0] == 'within': return ('S', s)
         if isinstance(i, tuple) and i and i[0] == 'range':
-            r = add(r, sub(S_of(v), ('S', ('slice', ('st', tuple(base), tuple(hist)), i[1], i[2]))))
+            r = add(r, sub(S_of(v), ('S', ('slice', st_key(base, hist), i[1], i[2]))))
             hist.append((i, v)); continue
         old = stored_get(base, hist, i)
+        if not (is_term(v) and is_term(old) and is_term(i)): return ('S', ('undecided-store', len(_ST_INTERN)))
         r = add(r, sub(v, old))
         hist.append((i, v))
     return r
@@ -1520,7 +1600,7 @@ def stored_get(base, hist, idx):
     for n in range(len(hist) - 1, -1, -1):
         (i, v) = hist[n]
         if isinstance(i, tuple) and i and i[0] in ('range', 'within'):
-            t = ('sel', ('st', tuple(base), tuple(hist[:n + 1])), idx); sym.SEL_RANGE[t[1]] = (0, 255); return t
+            t = ('sel', st_key(base, hist[:n + 1]), idx); sym.SEL_RANGE[t[1]] = (0, 255); return t
         c = cmp('eq', i, idx)
         if c == TRUE: return v
         if c == FALSE: continue
@@ -1541,4 +1621,4 @@ def stored_get(base, hist, idx):
                 if sg[0] == 'int': return band(shr(sg[1], C(8 * (idx[1] - pos))), C(0xff)) if sg[1][0] != 'c' else C((sg[1][1] >> (8 * (idx[1] - pos))) & 0xff)
                 break
             pos += l[1]
-    t = ('sel', ('st', tuple(base), ()), idx); sym.SEL_RANGE[t[1]] = (0, 255); return t
+    t = ('sel', st_key(base, ()), idx); sym.SEL_RANGE[t[1]] = (0, 255); return t
